@@ -12,6 +12,7 @@ TARGETS = [
         (r'(?<![\w>.])begin\(\)', 'arrayP_begin(this)', 0), (r'(?<![\w>.])size\(\)', 'arrayP_size(this)', 0)]),
     Target('s_c_str', S, r'const char\* c_str\(\) const (?=\{)', rules=[(r'(?<![\w>.])cbegin\(\)', 'arrayC_begin(this)', 1)]),
     Target('s_sv', S, r'std::string_view sv\(\) const (?=\{)', rules=[
+        (r'std::string_view\(\)', '(struct sv){0, 0}', 0), (r'std::string_view\(c_str\(\)\)', 'sv_from_cstr_(string_c_str(this))', 0),
         (r'return \{([^;{}]+)\};', r'return (struct sv){\1};', 1),
         (r'(?<![\w>.])c_str\(\)', 'string_c_str(this)', 1), (r'(?<![\w>.])size\(\)', 'arrayC_size(this)', 1)]),
     Target('anchor', S, r'string anchor\(const buffer& base_buffer\) const', rules=[
@@ -23,6 +24,9 @@ TARGETS = [
         (r'x\.size\(\)', 'buffer_size(x)', 2), (r'x\._ptr', 'x->_ptr', 2), (r'x\._len', 'x->_len', 0),
         (r'_iov->extract_front_continuous\(', 'IOV_extract_front_continuous(this->_iov, ', 1),
         fields_rule(['failed'])]),
+    Target('des_iovec_array', S, r'void process_field\(iovec_array& x\)', index=2, count=3, rules=[
+        (r'iovector_view v;', 'struct iovector_view_ v = { 0, 0 };', 1), (r'_iov->extract_front\(x\.summed_size, &v\)', 'IOV_extract_front_view(this->_iov, x->summed_size, &v)', 1),
+        (r'x\.assign\(v\.iov, v\.iovcnt\)', 'IA_assign(x, v.iov, v.iovcnt)', 1), (r'\bx\.summed_size', 'x->summed_size', 0), fields_rule(['failed'])]),
     Target('des_array', S, r'void process_field\(array<T>& x\)', rules=[
         (r'd\(\)->process_field\(\(buffer&\)x\);', 'DES_process_field_buffer(this, x); void *P0_ = x->_ptr; size_t L0_ = x->_len;', 1),
         (r'for \(auto& i: x\)\s*d\(\)->process_field\(i\);',
@@ -51,6 +55,7 @@ PROOFS = [
     Proof('slice_anchor/in_bounds', 'ser.c', 'h_anchor', kind='L', min_obligations=2),
     Proof('accessors', 'ser.c', 'h_accessors', kind='L', min_obligations=4, checks=CHECKS),
     Proof('deserializer/buffer', 'ser.c', 'h_des_buffer', kind='L', min_obligations=3),
+    Proof('deserializer/iovec_array', 'ser.c', 'h_des_iovec_array', kind='L', min_obligations=3),
     Proof('deserializer/array', 'ser.c', 'h_des_array', kind='L', min_obligations=3, checks=CHECKS, backend='cadical'),
     Proof('serializer/buffer', 'ser.c', 'h_ser_buffer', kind='L', min_obligations=3),
     Proof('checked_message', 'ser.c', 'h_checksum', kind='L', min_obligations=1),
